@@ -293,6 +293,43 @@ func c02(c *core.Ctx) {
 						}
 					}
 				}
+				// ... nor does such a goroutine fill the caller's response message: the message the function decodes
+				// or copies into on its own goroutine (Unmarshal(b, resp), Copy(resp, v)) is not handed to a decode
+				// or copy inside a goroutine — that one may still run when the call has already returned an error
+				isFill := func(cc *ssa.CallCommon) int {
+					if cc.IsInvoke() {
+						switch cc.Method.Name() {
+						case "Unmarshal":
+							return len(cc.Args) - 1
+						case "Copy":
+							return 0
+						}
+					}
+					return -1
+				}
+				core.InstrsDeep(fn, func(f *ssa.Function, in ssa.Instruction) {
+					if f == fn || !inGoroutine(f) {
+						return
+					}
+					cc := core.CallOf(in)
+					if cc == nil {
+						return
+					}
+					di := isFill(cc)
+					if di < 0 || di >= len(cc.Args) {
+						return
+					}
+					for _, pp := range fn.Params {
+						if _, isIface := pp.Type().Underlying().(*types.Interface); !isIface {
+							continue
+						}
+						if core.OriginIs(cc.Args[di], func(o ssa.Value) bool {
+							return core.Strip(core.ResolveFree(core.Strip(o))) == ssa.Value(pp) || core.Strip(o) == ssa.Value(pp)
+						}) {
+							c.Fail(core.FuncName(fn)+":response-not-filled-by-its-goroutines", in.Pos(), "a goroutine started by this function decodes (or copies) into the caller's message %q: when the call gives up on that goroutine (context ended) and returns an error, the goroutine may still fill the message afterwards — the caller gets an error AND a response, and a write into memory it owns again", pp.Name())
+						}
+					}
+				})
 				key := core.FuncName(fn) + ":results-not-written-by-its-goroutines"
 				if bad != "" {
 					c.Fail(key, where, "a goroutine started by this function stores into its result variable %q: when the function returns while the goroutine still runs (an early return, a deferred function that takes time) the store replaces what the return statement set — a non-OK status becomes nil, or the other way round", bad)
@@ -311,6 +348,9 @@ func c02(c *core.Ctx) {
 	// the status the client reports is the handler's: the library itself never cancels a call that is still in
 	// use (a cancelling finalizer on an object the blocked operation does not keep reachable — C04/R9)
 	c.Borrow("C04", map[string]string{"R9": "R6"}, c04)
+	// "exactly the handler's final status" includes a handler that ends with its own context error: it reaches the
+	// client as Canceled / DeadlineExceeded on every route from the handler to the caller (C04/R4)
+	c.Borrow("C04", map[string]string{"R4": "R8"}, c04)
 }
 
 // ---------------------------------------------------------------------------
